@@ -2,13 +2,16 @@
 """Regression test of the machinery itself (not a check): replays every stored seeded change and every stored
 behaviour-preserving refactoring in a scratch copy of /repo and /verif under /tmp/selftest (removed at the end).
 A seed must make the check of its own property print a VIOLATION line; a refactoring must leave all twenty quiet.
-usage: ./selftest.py [--seeds-only] [--benign-only]     -> build/selftest.log, exit 1 when an expectation fails"""
+usage: ./selftest.py [--seeds-only] [--benign-only] [--only <glob of seed dir names>] [--base <scratch dir>] [--log <file>]     -> build/selftest.log, exit 1 when an expectation fails"""
 import glob, json, os, shutil, subprocess, sys
 ENV = dict(os.environ, GOFLAGS="-mod=mod", GOPROXY="off", GOSUMDB="off", GOTOOLCHAIN="local")
 def sh(cmd, cwd=None, env=None):
     p = subprocess.run(cmd, cwd=cwd, env=env or ENV, stdout=subprocess.PIPE, stderr=subprocess.STDOUT, text=True)
     return p.returncode, p.stdout
-base = "/tmp/selftest"
+def opt(name, dflt):
+    return sys.argv[sys.argv.index(name) + 1] if name in sys.argv else dflt
+base = opt("--base", "/tmp/selftest")
+only = opt("--only", "*")
 shutil.rmtree(base, ignore_errors=True); os.makedirs(base)
 repo, verif = base + "/repo", base + "/verif"
 sh(["bash", "-c", f"mkdir -p {repo} && git -C /repo archive HEAD | tar -x -C {repo} && cd {repo} && git init -q && git add -A && git -c user.email=x@x -c user.name=x commit -qm base"])
@@ -17,13 +20,13 @@ sh(["rsync", "-a", "--exclude", ".git", "--exclude", "build/driver-*", "--exclud
 gm = open(verif + "/go/go.mod").read().replace("=> /repo", "=> " + repo)
 open(verif + "/go/go.mod", "w").write(gm)
 env = dict(ENV, VERIF_REPO=repo)
-log = open("/verif/build/selftest.log", "w")
+log = open(opt("--log", "/verif/build/selftest.log"), "w")
 bad = 0
 def run_check(prop):
     rc, out = sh([verif + "/check", prop, "quick"], cwd=verif, env=env)
     return [l for l in out.splitlines() if l.startswith("VIOLATION")], out
 if "--benign-only" not in sys.argv:
-    for d in sorted(glob.glob("/verif/seeded/*/")):
+    for d in sorted(glob.glob("/verif/seeded/" + only + "/")):
         name = os.path.basename(d.rstrip("/")); prop = name.split("-")[0]
         rc, out = sh(["git", "-C", repo, "apply", d + "patch.diff"])
         if rc != 0:
